@@ -136,12 +136,12 @@ def exRootMapVal : Val := .map false [.str (strBytes "a")] [.int 1]
 example : NodeWF exRootMap = true ∧ WT exRootMap exRootMapVal = true ∧ RootOK exRootMap = true ∧
     LoopKeysOK exOracle exFt exScriptAll exRootMap exRootMapVal [] = true := by decide
 
-/-- Known finding `loop-root-map-skipped`: the emitted Loop of the current tree returns at once for a root
+/-- Known finding `loop-root-map-skipped`: the emitted Loop of the tree as it was at the pinned commit (GenCfg.original; since repaired by a `fix:` commit) returned at once for a root
 map type on the empty path; the property demands one callback per entry. -/
 theorem repo_not_correct :
     loopAccepts exScriptAll exRootMap exRootMapVal []
-      ((loopM GenCfg.repo exScriptAll exFt exRootMap .ptr exRootMapVal []).groups.map (obsOf exOracle))
-      (loopM GenCfg.repo exScriptAll exFt exRootMap .ptr exRootMapVal []).fin = false := by
+      ((loopM GenCfg.original exScriptAll exFt exRootMap .ptr exRootMapVal []).groups.map (obsOf exOracle))
+      (loopM GenCfg.original exScriptAll exFt exRootMap .ptr exRootMapVal []).fin = false := by
   decide
 
 /-- The same input is accepted for the repaired emitter (an instance of `loop_correct`). -/
